@@ -506,14 +506,31 @@ func readSourceEnv(w *World, root *ssa.Function, v ssa.Value, env *strEnv, depth
 		}
 		return nil, false
 	}
-	constStr := func(x ssa.Value) (string, bool) {
+	// chase: a parameter of a helper being looked through resolved to the argument bound to it, however many frames up
+	chase := func(x ssa.Value) ssa.Value {
 		x = throughCell(strip(x))
-		if p, isP := x.(*ssa.Parameter); isP {
-			for cur := env; cur != nil; cur = cur.up {
+		cur := env
+		for hop := 0; hop < 8; hop++ {
+			p, isP := x.(*ssa.Parameter)
+			if !isP {
+				break
+			}
+			found := false
+			for ; cur != nil; cur = cur.up {
 				if b, ok := cur.bind[p]; ok {
-					return strConst(throughCell(strip(b)))
+					x, cur, found = throughCell(strip(b)), cur.up, true
+					break
 				}
 			}
+			if !found {
+				break
+			}
+		}
+		return x
+	}
+	constStr := func(x ssa.Value) (string, bool) {
+		x = chase(x)
+		if _, isP := x.(*ssa.Parameter); isP {
 			x = w.resolveUp(root, x)
 		}
 		return strConst(x)
@@ -566,6 +583,36 @@ func readSourceEnv(w *World, root *ssa.Function, v ssa.Value, env *strEnv, depth
 			}
 		case *ssa.Call:
 			n := calleeName(t)
+			var dynFn *ssa.Function
+			if n == "dynamic" {
+				// a conversion function handed in as an argument (parse func(string) (T, error))
+				if f, ok := chase(t.Call.Value).(*ssa.Function); ok {
+					dynFn = f
+					n = fnName(f)
+				}
+			}
+			if dynFn != nil && !strings.HasPrefix(n, "strconv.") && x.Index == 0 && w.InRepo(dynFn) && dynFn.Blocks != nil && len(t.Call.Args) == len(dynFn.Params) {
+				// a repository conversion function: looked through like a helper
+				bind := map[*ssa.Parameter]ssa.Value{}
+				for i, p := range dynFn.Params {
+					bind[p] = t.Call.Args[i]
+				}
+				henv := &strEnv{bind: bind, up: env}
+				var src *readSrc
+				for _, r := range liveReturns(dynFn) {
+					for _, lf := range w.leaves(r.Results[0], r, false) {
+						if _, ok := strip(lf.Val).(*ssa.Const); ok {
+							continue
+						}
+						s, ok := readSourceEnv(w, root, lf.Val, henv, depth+1)
+						if !ok || (src != nil && (src.key != s.key || src.part != s.part || src.conv != s.conv)) {
+							return nil, false
+						}
+						src = s
+					}
+				}
+				return src, src != nil
+			}
 			if n == "strings.Cut" && len(t.Call.Args) == 2 && (x.Index == 0 || x.Index == 1) {
 				// before, after, found := strings.Cut(v, sep): the two parts of a value holding the separator once
 				if sep, ok := constStr(t.Call.Args[1]); ok {
@@ -702,6 +749,90 @@ func legacyReadsSSA(c *Ctx, p *packages.Package, fn *ssa.Function, attrs *types.
 		}
 	}
 	visit(obj, "", 0)
+	// fields of a sub-object reached through a pointer field of the decoded object that is set once, to a fresh
+	// struct, where the object is made (a.Sub.F = v after a := newObject())
+	{
+		top := w.FieldStoresDeep(fn, obj)
+		for _, tf := range w.Tree(fn) {
+			for _, b := range tf.Blocks {
+				for _, ins := range b.Instrs {
+					fa2, ok := ins.(*ssa.FieldAddr)
+					if !ok {
+						continue
+					}
+					ld, ok := fa2.X.(*ssa.UnOp)
+					if !ok || ld.Op != token.MUL {
+						continue
+					}
+					fa1, ok := ld.X.(*ssa.FieldAddr)
+					if !ok || w.canon(fn, fa1.X) != ssa.Value(obj) {
+						continue
+					}
+					n1 := fieldName(fa1.X.Type(), fa1.Field)
+					init := top[n1]
+					if len(init) != 1 {
+						continue
+					}
+					sub, isAlloc := w.canon(fn, init[0]).(*ssa.Alloc)
+					if !isAlloc {
+						if a2, ok := throughCell(strip(init[0])).(*ssa.Alloc); ok {
+							sub, isAlloc = a2, true
+						}
+					}
+					if !isAlloc {
+						continue
+					}
+					st, _ := sub.Type().(*types.Pointer).Elem().Underlying().(*types.Struct)
+					if st == nil {
+						continue
+					}
+					n2 := fieldName(fa2.X.Type(), fa2.Field)
+					var ftype types.Type
+					for i := 0; i < st.NumFields(); i++ {
+						if st.Field(i).Name() == n2 {
+							ftype = st.Field(i).Type()
+						}
+					}
+					if fr := fa2.Referrers(); fr != nil {
+						for _, u := range *fr {
+							stv, ok := u.(*ssa.Store)
+							if !ok || stv.Addr != ssa.Value(fa2) {
+								continue
+							}
+							switch w.canon(fn, stv.Val).(type) {
+							case *ssa.Const, *ssa.MakeMap, *ssa.MakeSlice:
+								continue
+							}
+							src, ok := readSource(w, fn, stv.Val, 0)
+							if !ok {
+								for o := range w.Origins(stv.Val) {
+									if strings.HasPrefix(o, "other:") {
+										r.problems = append(r.problems, fmt.Sprintf("the value stored into %s.%s at %s is not understood: %s", n1, n2, w.Pos(stv.Pos()), w.Short(stv.Val)))
+										break
+									}
+								}
+								continue
+							}
+							keyName := ""
+							if k := constByValue(p, src.key); k != nil {
+								keyName = k.Name()
+								r.keyConsts[k] = true
+							}
+							part := ""
+							if src.part >= 0 {
+								part = tbPartKey(src.part, src.sep)
+							}
+							pos := stv.Pos()
+							if !pos.IsValid() {
+								pos = fa2.Pos()
+							}
+							r.pairs = append(r.pairs, tbPair{key: src.key, keyName: keyName, part: part, field: n1 + "." + n2, how: src.conv, ftype: ftype, pos: pos})
+						}
+					}
+				}
+			}
+		}
+	}
 	// len(split) tests
 	for _, tf := range w.Tree(fn) {
 		for _, b := range tf.Blocks {
